@@ -118,9 +118,9 @@ func RunC16(s *kernel.Sim) *World {
 		}
 		switch t.Weighted([]int{3, 2, 2}) {
 		case 1:
-			c.deadline = []time.Duration{time.Second, 30 * time.Second, 2 * time.Minute, 7 * time.Minute}[t.Choice(4)]
+			c.deadline = []time.Duration{time.Second, 30 * time.Second, 2 * time.Minute, 7 * time.Minute, 12 * time.Minute}[t.Choice(5)]
 		case 2:
-			c.cancelAt = []time.Duration{time.Second, 20 * time.Second, 90 * time.Second, 4 * time.Minute}[t.Choice(4)]
+			c.cancelAt = []time.Duration{time.Second, 20 * time.Second, 90 * time.Second, 4 * time.Minute, 6*time.Minute + 7*time.Second, 9 * time.Minute}[t.Choice(6)]
 		}
 		callers = append(callers, c)
 	}
@@ -295,6 +295,7 @@ func RunC16(s *kernel.Sim) *World {
 		}
 		var lastEnd time.Duration = c.callT
 		led, abortsByOthers, inFlight := 0, 0, false
+		var shortLimit time.Duration = -1 // a led request cut off by a timeout well before five minutes
 		for _, n := range c.names {
 			for _, r := range lookupReqs[n] {
 				if r.StartT > end || (r.End != 0 && r.EndT < c.callT) {
@@ -315,6 +316,9 @@ func RunC16(s *kernel.Sim) *World {
 					if c.deadline == 0 && dur > 5*time.Minute+time.Second {
 						w.Fail("limit", "caller %d (%q, no deadline) led a request that was still unanswered after %v: no five-minute safety limit", c.id, c.names, dur)
 					}
+					if c.deadline == 0 && r.End != 0 && isCtxErrText(r.Err) && dur < 5*time.Minute-time.Second {
+						shortLimit = dur
+					}
 				} else if isCtxErrText(r.Err) {
 					abortsByOthers++
 				}
@@ -322,6 +326,15 @@ func RunC16(s *kernel.Sim) *World {
 		}
 		if led > len(c.names)+abortsByOthers {
 			w.Fail("retry", "caller %d (%q) led %d requests although only %d flights it could have joined were aborted by another context (no automatic retry)", c.id, c.names, led, abortsByOthers)
+		}
+		// (no failure by proxy, second form) After somebody else's flight was
+		// aborted the caller starts over on its own, and then it is a caller
+		// like any other: with no deadline and a live context its own request
+		// gets the safety limit, not what is left of a budget the other
+		// caller's flight used up.
+		if c.done && shortLimit >= 0 && abortsByOthers > 0 && c.ctx.Err() == nil && c.err != nil {
+			w.Fail("proxy", "caller %d (%q, no deadline, context live) joined a flight that another caller's context aborted, started over, and its own request was cut off after %v: failed because of the other caller's cancellation",
+				c.id, c.names, shortLimit)
 		}
 		if c.done && c.retT > lastEnd+time.Second && !known[c.names[0]] {
 			w.Fail("limit", "caller %d (%q) returned at t=%v, %v after the last request it could have waited for ended (t=%v)", c.id, c.names, c.retT, c.retT-lastEnd, lastEnd)
